@@ -549,11 +549,11 @@ func genInput(r *rng.R, scenario int) Input {
 	default:
 		chaos = 2
 	}
-	if scenario == 3 && !r.Chance(1, 5) {
+	if (scenario == 3 || scenario == 4) && !r.Chance(1, 5) {
 		chaos = 0
 	}
 	switch scenario {
-	case 3: // a small neighbourhood; the shared atom is added at the end
+	case 3, 4: // a small neighbourhood; the shared atom / the holder of empty groups is added at the end
 		u = genUniverse(r, 1+r.Intn(4), 2)
 	case 1: // several slots of few names, requested by name: the order of the listing and of ^^ choices
 		u = genUniverse(r, 3+r.Intn(6), 9)
@@ -605,6 +605,11 @@ func genInput(r *rng.R, scenario int) Input {
 	}
 	if scenario == 3 {
 		addSharedAtom(r, u, &in)
+	}
+	if scenario == 4 { // round 5: empty groups in every position (r5_gen.go)
+		addEmptyGroups(r, &in)
+	} else if r.Chance(1, 4) { // ... and sprinkled over the texts of the other scenarios
+		sprinkleInput(r, &in)
 	}
 	return in
 }
@@ -768,6 +773,10 @@ func Generate(r *rng.R, tier string, n int, emit func(*common.Case)) {
 		case 5, 2:
 			if i%12 != 2 { // i%6 == 5, and every second i%6 == 2
 				scenario = 3
+			}
+		case 4:
+			if i%12 == 4 { // every second i%6 == 4: empty groups (round 5)
+				scenario = 4
 			}
 		}
 		in := genInput(cr, scenario)
